@@ -26,9 +26,10 @@ KNOWN_IDS = set()     # ids listed under "findings" in /verif/known_findings.jso
 
 class Harness(object):
     def __init__(self, name, funcs, props, body, variants=None, level="proof", bound="", replay=None,
-                 note="", setup=None, split_variants=False, weight=1):
+                 note="", setup=None, split_variants=False, weight=1, timeout_ms=None):
         self.split_variants = split_variants
         self.weight = weight
+        self.timeout_ms = timeout_ms
         self.name = name
         self.funcs = funcs if isinstance(funcs, (list, tuple)) else [funcs]
         self.props = props
@@ -42,10 +43,10 @@ class Harness(object):
 
 
 def harness(name, funcs, props, variants=None, level="proof", bound="", replay=None, note="", setup=None,
-            split_variants=False, weight=1):
+            split_variants=False, weight=1, timeout_ms=None):
     def deco(body):
         HARNESSES[name] = Harness(name, funcs, props, body, variants, level, bound, replay, note, setup,
-                                  split_variants, weight)
+                                  split_variants, weight, timeout_ms)
         return body
     return deco
 
@@ -216,6 +217,8 @@ def run_harness(name, repo, tier="quick", seed=0, jobs=None, variant_index=None)
            "variants": [], "obligations": [], "undecided": [], "refuted": [], "known": [], "paths": 0,
            "note": h.note, "duplicates_merged": 0}
     timeout_ms = 10000 if tier == "quick" else 120000
+    if h.timeout_ms is not None:
+        timeout_ms = max(timeout_ms, h.timeout_ms)
     jobs = jobs or int(os.environ.get("VERIF_INNER_JOBS", "8"))
     try:
         interp = get_interp(repo)
